@@ -349,7 +349,7 @@ func classesOf(c config) []string {
 func nonTrivial(classes []string) bool {
 	for _, c := range classes {
 		switch c {
-		case "request-cycle", "response-cycle", "rootless-response", "rootless-request", "flow-reference", "flow-reference-cycle", "invalid-quota-field", "dangling-reference":
+		case "request-cycle", "response-cycle", "rootless-response", "rootless-request", "flow-reference", "flow-reference-cycle", "invalid-quota-field", "dangling-reference", "shared-keys-across-directions":
 			return true
 		}
 	}
@@ -557,6 +557,57 @@ func TestEnumResponseGraphs(t *testing.T) {
 	r.Note(fmt.Sprintf("enumerated %d response graphs (<=%d connections), shard %d/%d", idx, maxConns(), sh, nsh))
 }
 
+// TestEnumSharedKeyGraphs: processor keys are only unique per direction, so the same key may name a node of
+// the request direction and a different node (other edges) of the response direction. A fixed acyclic request
+// direction over P0 (Filter) and P1 (Transform) is combined with every response direction over the SAME keys
+// plus R0 with up to 3/4 connections.
+func TestEnumSharedKeyGraphs(t *testing.T) {
+	r := ev.New(t, "C05")
+	rec = engine.Capture(0)
+	defer rec.Stop()
+	sh, nsh := shardOf()
+	idx := 0
+	procs := []fg.Proc{mkProc("P0", "F"), mkProc("P1", "T"), mkProc("R0", "F")}
+	req := []fg.Conn{{From: fg.StreamStart(), To: fg.End{Proc: "P0"}}, {From: fg.End{Proc: "P0", Cond: "hit"}, To: fg.End{Proc: "P1"}},
+		{From: fg.End{Proc: "P0", Cond: "miss"}, To: fg.StreamEnd()}, {From: fg.End{Proc: "P1"}, To: fg.StreamEnd()}}
+	froms := []fg.End{fg.StreamStart()}
+	for _, p := range procs {
+		for _, o := range fg.Outputs(p.Kind) {
+			froms = append(froms, fg.End{Proc: p.Key, Cond: o})
+		}
+	}
+	tos := []fg.End{fg.StreamEnd(), {Proc: "P0"}, {Proc: "P1"}, {Proc: "R0"}}
+	all := []fg.Conn{}
+	for _, f := range froms {
+		for _, to := range tos {
+			all = append(all, fg.Conn{From: f, To: to})
+		}
+	}
+	var failed error
+	subsets(len(all), maxConns(), func(pick []int) {
+		if failed != nil {
+			return
+		}
+		idx++
+		if idx%nsh != sh {
+			return
+		}
+		f := fg.Flow{Name: "uflow", URL: "h.com/p", Procs: procs, Req: req}
+		for _, i := range pick {
+			f.Resp = append(f.Resp, all[i])
+		}
+		c := config{Flows: []fg.Flow{f}, Tags: []string{"shared-keys-across-directions"}}
+		if err := handle(r, c); err != nil {
+			failed = fmt.Errorf("%s", r.Fail(c, "%v", err))
+		}
+	})
+	if failed != nil {
+		t.Fatalf("%v", failed)
+	}
+	r.SetExhaustive(true)
+	r.Note(fmt.Sprintf("enumerated %d response graphs over keys shared with the request direction (<=%d connections), shard %d/%d", idx, maxConns(), sh, nsh))
+}
+
 // ---- random configurations (rapid) -----------------------------------------------------------------
 
 // genFlow builds a mostly well-formed flow (forward edges, every output wired)
@@ -594,6 +645,12 @@ func genFlow(t *rapid.T, name, other, url string, haveOther, haveQuota bool) fg.
 		f.Procs = append(f.Procs, mkProc(key, k))
 		respKeys = append(respKeys, key)
 		kinds[key] = k
+	}
+	// keys are unique per direction only: a request-direction Filter/Transform may also be a (different) node of the response direction
+	for _, k := range reqKeys {
+		if (kinds[k] == "F" || kinds[k] == "T") && rapid.IntRange(0, 3).Draw(t, "share-"+k) == 2 {
+			respKeys = append(respKeys, k)
+		}
 	}
 	target := func(keys []string, i int, label string) fg.End {
 		switch x := rapid.IntRange(0, 39).Draw(t, label); {
@@ -786,7 +843,7 @@ func TestRegressionFixedDefects(t *testing.T) {
 				{From: fg.End{Proc: "R0", Cond: "miss"}, To: fg.End{Proc: "R0"}}, {From: fg.End{Proc: "R0", Cond: "hit"}, To: fg.StreamEnd()}}}}},
 		// the same without a root (reachable since early responses continue into rootless response directions)
 		{Flows: []fg.Flow{{Name: "uflow", URL: "h.com/p", Procs: []fg.Proc{mkProc("P0", "F"), mkProc("GA", "G"), mkProc("R0", "F")},
-			Req: []fg.Conn{{From: fg.StreamStart(), To: fg.End{Proc: "P0"}}, {From: fg.End{Proc: "P0", Cond: "hit"}, To: fg.End{Proc: "GA"}}, {From: fg.End{Proc: "P0", Cond: "miss"}, To: fg.StreamEnd()}},
+			Req:  []fg.Conn{{From: fg.StreamStart(), To: fg.End{Proc: "P0"}}, {From: fg.End{Proc: "P0", Cond: "hit"}, To: fg.End{Proc: "GA"}}, {From: fg.End{Proc: "P0", Cond: "miss"}, To: fg.StreamEnd()}},
 			Resp: []fg.Conn{{From: fg.End{Proc: "GA"}, To: fg.End{Proc: "R0"}}, {From: fg.End{Proc: "R0", Cond: "hit"}, To: fg.End{Proc: "R0"}}, {From: fg.End{Proc: "R0", Cond: "miss"}, To: fg.StreamEnd()}}}}},
 	}
 	for _, c := range cases {
